@@ -383,6 +383,11 @@ func (c *c14Case) runStyleValues(ctx *core.Ctx) {
 		want[k] = v
 	}
 	attrs := ` style="` + strings.ReplaceAll(c.Form, `"`, "&quot;") + `"`
+	data := c14Data()
+	if c.Ctx == "interp" { // the same declarations, substituted into the attribute
+		attrs = ` style="{{ sstat }}"`
+		data["sstat"] = c.Form
+	}
 	switch c.StyleB {
 	case "obj1":
 		attrs += ` :style="{color: col, fontSize: '12px'}"`
@@ -390,6 +395,12 @@ func (c *c14Case) runStyleValues(ctx *core.Ctx) {
 	case "str":
 		attrs += ` :style="ss"`
 		want["color"], want["top"] = "blue", "0"
+	case "objdisp": // the bound style sets display itself: v-show still hides
+		attrs += ` :style="{display: 'flex', fontSize: '12px'}"`
+		want["display"], want["font-size"] = "flex", "12px"
+	case "objzero": // zero is a value
+		attrs += ` :style="{opacity: 0, zIndex: zero, margin: 0.0}"`
+		want["opacity"], want["z-index"], want["margin"] = "0", "0", "0"
 	}
 	switch c.Show {
 	case "f":
@@ -400,7 +411,7 @@ func (c *c14Case) runStyleValues(ctx *core.Ctx) {
 	}
 	tpl := `<div><p id="e"` + attrs + `>x</p></div>`
 	ctx.Eval(1)
-	out, err := renderString(tpl, c14Data())
+	out, err := renderString(tpl, data)
 	if err != nil {
 		ctx.Violation("render-error", "style-values", c.StyleB+"/"+c.Show, fmt.Sprintf("tpl %q: %v", tpl, err))
 		return
@@ -430,7 +441,7 @@ func (c *c14Case) runStyleValues(ctx *core.Ctx) {
 	}
 	outSeq := seq(st)
 	for k, vs := range seq(c.Form) {
-		if (c.StyleB == "obj1" && k == "color") || (c.StyleB == "str" && (k == "color" || k == "top")) || (c.Show == "f" && k == "display") {
+		if (c.StyleB == "obj1" && k == "color") || (c.StyleB == "str" && (k == "color" || k == "top")) || ((c.Show == "f" || c.StyleB == "objdisp") && k == "display") || (c.StyleB == "objzero" && (k == "margin" || k == "opacity" || k == "z-index")) {
 			continue
 		}
 		if fmt.Sprint(outSeq[k]) != fmt.Sprint(vs) {
@@ -660,9 +671,10 @@ func init() {
 		Decode:      core.DecodeAs[c14Case](),
 		Enumerate: func(tier string, emit func(core.Case)) {
 			for st := range c14StyleStatics {
-				for _, sb := range []string{"none", "obj1", "str"} {
+				for _, sb := range []string{"none", "obj1", "str", "objdisp", "objzero"} {
 					for _, sh := range []string{"none", "t", "f"} {
 						emit(&c14Case{Part: "style-values", Form: st, StyleB: sb, Show: sh})
+						emit(&c14Case{Part: "style-values", Form: st, StyleB: sb, Show: sh, Ctx: "interp"})
 					}
 				}
 			}
